@@ -328,6 +328,7 @@ Section QuotientParams.
       { intros q. rewrite HD, HBc. apply tget_nonneg. apply nonneg_pmul; assumption. }
       rewrite Ha. simpl bind.
       (* _c *)
+      destruct (Nat.eqb_spec (length cs) 1) as [Hone|_]; [lia|].
       set (Ec := product_table (remove_at idx fs) (remove_at idx mins) (remove_at idx maxs)
                    (remove_at idx tabs') psh).
       assert (Htabs'' : remove_at idx tabs' = remove_at idx tabs)
